@@ -55,6 +55,8 @@ class Fn:
         self.ptrs = dict(params["ptrs"])               # name -> reg   (written as *name)
         self.nreg = params["nparam"]
         self.u32 = set(params.get("u32", ()))
+        self.local_arrays = []
+        self.callees = params.get("callees", {})
         self.loopvars = {}
         self.helpers = helpers
         self.prog = []
@@ -88,6 +90,15 @@ class Fn:
                 n = self.eat()
                 if not re.match(r"[A-Za-z_]\w*$", n):
                     raise TranslateError("%s: bad declarator %r" % (self.name, n))
+                if self.peek() == "[":            # local array
+                    self.eat("["); size = lit(self.eat()); self.eat("]")
+                    base = self.nreg
+                    self.nreg += size
+                    self.arrays[n] = (base, size)
+                    self.local_arrays.append((n, base, size))
+                    if self.peek() == ",":
+                        self.eat(); continue
+                    self.eat(";"); break
                 scope[n] = self.fresh()
                 if self.peek() == ",":
                     self.eat(); continue
@@ -125,17 +136,83 @@ class Fn:
             self.loopvars[v] = None
             self.eat("}")
             return
-        # assignment
-        dst = self.lvalue(scope)
+        if tok in self.callees and self.peek(1) == "(":
+            self.call(scope); return
+        # assignment (possibly chained: a = b = c = e)
+        dsts = [self.lvalue(scope)]
         op = self.eat()
-        if op not in ("=", "|=", "&=", "^="):
+        if op not in ("=", "|=", "&=", "^=", ">>=", "<<="):
             raise TranslateError("%s: assignment operator %r not in subset" % (self.name, op))
-        e = self.expr(scope)
+        if op == "=":
+            while True:
+                save = self.i
+                try:
+                    d2 = self.lvalue(scope)
+                    if self.peek() == "=":
+                        self.eat(); dsts.append(d2); continue
+                except TranslateError:
+                    pass
+                self.i = save
+                break
+        if op in (">>=", "<<="):
+            n = self.constexpr()
+            if not (0 <= n < 64):
+                raise TranslateError("%s: shift amount %d not in 0..63" % (self.name, n))
+            e = "(%s (.reg %d) %d)" % (".shr" if op == ">>=" else ".shl", dsts[0], n)
+        else:
+            e = self.expr(scope)
+            if op != "=":
+                e = "(%s (.reg %d) %s)" % ({"|=": ".or", "&=": ".and", "^=": ".xor"}[op], dsts[0], e)
         self.eat(";")
-        if op != "=":
-            e = {"|=": ".or", "&=": ".and", "^=": ".xor"}[op] + " (.reg %d) %s" % (dst, e)
-            e = "(%s)" % e
-        self.prog.append((dst, e))
+        # C evaluates a chained assignment right to left; all targets receive the same value
+        self.prog.append((dsts[-1], e))
+        for d in reversed(dsts[:-1]):
+            self.prog.append((d, "(.reg %d)" % dsts[-1]))
+
+    def call(self, scope):
+        """inline a call of an already translated function: its parameter registers are renamed to the actuals,
+        its locals to fresh registers"""
+        name = self.eat(); self.eat("(")
+        callee = self.callees[name]
+        args = []
+        while True:
+            if self.peek() == "&":
+                self.eat(); a = self.eat(); self.eat("["); k = self.index(); self.eat("]")
+                base, size = self.arrays[a]
+                if not (0 <= k < size):
+                    raise TranslateError("%s: &%s[%d] out of range" % (self.name, a, k))
+                args.append(("ptr", base + k))
+            else:
+                a = self.eat()
+                if a not in self.arrays:
+                    raise TranslateError("%s: call argument %r is not an array" % (self.name, a))
+                off = 0
+                if self.peek() == "+":
+                    self.eat(); off = self.index()
+                base, size = self.arrays[a]
+                args.append(("arr", base + off, size - off))
+            if self.peek() == ",":
+                self.eat(); continue
+            self.eat(")"); self.eat(";"); break
+        if len(args) != len(callee["params"]):
+            raise TranslateError("%s: call of %s with %d arguments" % (self.name, name, len(args)))
+        ren = {}
+        for (kind, creg, csize), a in zip(callee["params"], args):
+            if kind == "ptr":
+                if a[0] != "ptr":
+                    raise TranslateError("%s: %s expects a pointer to one word" % (self.name, name))
+                ren[creg] = a[1]
+            else:
+                if a[0] != "arr" or a[2] < csize:
+                    raise TranslateError("%s: %s expects an array of %d words" % (self.name, name, csize))
+                for k in range(csize):
+                    ren[creg + k] = a[1] + k
+        for r in range(callee["nparam"], callee["nreg"]):
+            ren[r] = self.fresh()
+        def rn(m):
+            return "(.reg %d)" % ren[int(m.group(1))]
+        for dst, ex in callee["prog"]:
+            self.prog.append((ren[dst], re.sub(r"\(\.reg (\d+)\)", rn, ex)))
 
     def index(self):
         """constant index expression: literals, loop variables, + and <<"""
@@ -194,8 +271,16 @@ class Fn:
     def band(self, scope):
         return self.binlevel(self.shift, {"&": ".and"}, scope)
 
-    def shift(self, scope):
+    def addsub(self, scope):
         l = self.unary(scope)
+        while self.peek() == "-":
+            self.eat()
+            r = self.unary(scope)
+            l = "(.sub %s %s)" % (l, r)
+        return l
+
+    def shift(self, scope):
+        l = self.addsub(scope)
         while self.peek() in ("<<", ">>"):
             o = self.eat()
             n = self.constexpr()
@@ -289,6 +374,115 @@ LAYOUT = {
 }
 
 
+def norm(t):
+    return re.sub(r"\s+", " ", t).strip()
+
+
+def loop_body(text, header_re, where):
+    m = re.search(header_re, text)
+    if not m:
+        raise TranslateError("%s: loop header not of the accepted shape" % where)
+    i, depth = m.end(), 1
+    while depth:
+        depth += {"{": 1, "}": -1}.get(text[i], 0); i += 1
+    return text[m.end():i - 1], text[:m.start()], text[i:]
+
+
+def extract_keysched(src, d, helpers):
+    """br_aes_ct64_keysched (word expansion loop: shape-checked, emitted as data for key_len = 32; compression loop: one generic
+    iteration translated with the calls inlined), br_aes_ct64_skey_expand (one generic iteration), sub_word (shape)."""
+    callees = {
+        "br_aes_ct64_interleave_in": dict(prog=d["interleave_in"]["prog"], nreg=d["interleave_in"]["nreg"], nparam=6,
+                                          params=[("ptr", 4, 1), ("ptr", 5, 1), ("arr", 0, 4)]),
+        "br_aes_ct64_ortho": dict(prog=d["ortho"]["prog"], nreg=d["ortho"]["nreg"], nparam=8, params=[("arr", 0, 8)]),
+    }
+    args, body = find_function(src, "br_aes_ct64_keysched")
+    if norm(args) != "uint64_t *comp_skey, const unsigned char *key, unsigned int key_len":
+        raise TranslateError("br_aes_ct64_keysched: unexpected parameters %r" % norm(args))
+    comp, pre, post = loop_body(body, r"for\s*\(\s*i\s*=\s*0\s*,\s*j\s*=\s*0\s*;\s*i\s*<\s*nkf\s*;\s*i\s*\+=\s*4\s*,\s*j\s*\+=\s*2\s*\)\s*\{",
+                                "br_aes_ct64_keysched (compression loop)")
+    if norm(post) != "":
+        raise TranslateError("br_aes_ct64_keysched: code after the compression loop")
+    f = Fn("br_aes_ct64_keysched/compress", comp, dict(scalars={}, arrays={"skey": (0, 4), "comp_skey": (4, 2)}, ptrs={}, nparam=6,
+                                                       u32=["skey"], callees=callees), helpers)
+    f.loopvars = {"i": 0, "j": 0}
+    f.block({})
+    if f.peek() is not None:
+        raise TranslateError("keysched compression loop: unparsed tokens")
+    d["ks_compress"] = dict(prog=f.prog, nreg=f.nreg, cname="br_aes_ct64_keysched: one iteration of the compression loop (skey + i -> comp_skey[j], comp_skey[j + 1])")
+    # ---- the word expansion part, as text
+    want_pre = ("unsigned int i, j, k, nk, nkf; uint32_t tmp; uint32_t skey[60]; unsigned nrounds = 10 + ((key_len - 16) >> 2); "
+                "nk = (key_len >> 2); nkf = ((nrounds + 1) << 2); br_range_dec32le(skey, (key_len >> 2), key); "
+                "tmp = skey[(key_len >> 2) - 1]; for (i = nk, j = 0, k = 0; i < nkf; i++) { if (j == 0) { "
+                "tmp = (tmp << 24) | (tmp >> 8); tmp = sub_word(tmp) ^ Rcon[k]; } else if (nk > 6 && j == 4) { tmp = sub_word(tmp); } "
+                "tmp ^= skey[i - nk]; skey[i] = tmp; if (++j == nk) { j = 0; k++; } }")
+    if norm(pre) != want_pre:
+        raise TranslateError("br_aes_ct64_keysched: the word expansion part differs from the accepted text:\n  got  %s\n  want %s" % (norm(pre), want_pre))
+    # simulate its control flow for key_len = 32 (the only length AES_256_ECB passes)
+    key_len = 32
+    nrounds = 10 + ((key_len - 16) >> 2); nk = key_len >> 2; nkf = (nrounds + 1) << 2
+    ops, j, k = [], 0, 0
+    for i in range(nk, nkf):
+        if j == 0:
+            ops.append((1, k))          # RotWord, SubWord, xor Rcon[k]
+        elif nk > 6 and j == 4:
+            ops.append((2, 0))          # SubWord
+        else:
+            ops.append((0, 0))
+        j += 1
+        if j == nk:
+            j = 0; k += 1
+    d["ks_ops"], d["ks_nk"], d["ks_nkf"], d["ks_nrounds"] = ops, nk, nkf, nrounds
+    # ---- sub_word
+    args, body = find_function(src, "sub_word")
+    if norm(args) != "uint32_t x" or norm(body) != ("uint64_t q[8]; memset(q, 0, sizeof q); q[0] = x; br_aes_ct64_ortho(q); "
+                                                      "br_aes_ct64_bitslice_Sbox(q); br_aes_ct64_ortho(q); return (uint32_t)q[0];"):
+        raise TranslateError("sub_word: body differs from the accepted text: %s" % norm(body))
+    # ---- skey_expand
+    args, body = find_function(src, "br_aes_ct64_skey_expand")
+    if norm(args) != "uint64_t *skey, const uint64_t *comp_skey, unsigned int nrounds":
+        raise TranslateError("br_aes_ct64_skey_expand: unexpected parameters")
+    exp, pre, post = loop_body(body, r"for\s*\(\s*u\s*=\s*0\s*,\s*v\s*=\s*0\s*;\s*u\s*<\s*n\s*;\s*u\s*\+\+\s*,\s*v\s*\+=\s*4\s*\)\s*\{",
+                               "br_aes_ct64_skey_expand")
+    if norm(pre) != "unsigned u, v, n; n = (nrounds + 1) << 1;" or norm(post) != "":
+        raise TranslateError("br_aes_ct64_skey_expand: prologue/epilogue differ from the accepted text: %r" % norm(pre))
+    f = Fn("br_aes_ct64_skey_expand", exp, dict(scalars={}, arrays={"comp_skey": (0, 1), "skey": (1, 4)}, ptrs={}, nparam=5), helpers)
+    f.loopvars = {"u": 0, "v": 0}
+    f.block({})
+    if f.peek() is not None:
+        raise TranslateError("skey_expand loop: unparsed tokens")
+    d["ks_expand"] = dict(prog=f.prog, nreg=f.nreg, cname="br_aes_ct64_skey_expand: one iteration (comp_skey[u] -> skey[v .. v+3])")
+    # ---- the wrappers, as text
+    for fn, a, b in (
+        ("AES_256_ECB", "const uint8_t *input, const unsigned char *key, unsigned char *output",
+         "aes256ctx ctx; aes256_ecb_keyexp(&ctx, key); aes256_ecb(output, input, 1, &ctx); aes256_ctx_release(&ctx);"),
+        ("aes256_ecb_keyexp", "aes256ctx *r, const unsigned char *key",
+         "uint64_t skey[30]; r->sk_exp = malloc(sizeof(uint64_t) * 120); if (r->sk_exp == ((void *)0)) { exit(111); } "
+         "br_aes_ct64_keysched(skey, key, 32); br_aes_ct64_skey_expand(r->sk_exp, skey, 14);"),
+        ("aes256_ecb", "unsigned char *out, const unsigned char *in, size_t nblocks, const aes256ctx *ctx",
+         "aes_ecb(out, in, nblocks, ctx->sk_exp, 14);"),
+        ("aes_ecb", "unsigned char *out, const unsigned char *in, size_t nblocks, const uint64_t *rkeys, unsigned int nrounds",
+         "uint32_t blocks[16]; unsigned char t[64]; while (nblocks >= 4) { br_range_dec32le(blocks, 16, in); aes_ecb4x(out, blocks, rkeys, nrounds); "
+         "nblocks -= 4; in += 64; out += 64; } if (nblocks) { br_range_dec32le(blocks, nblocks * 4, in); aes_ecb4x(t, blocks, rkeys, nrounds); "
+         "memcpy(out, t, nblocks * 16); }"),
+        ("aes_ecb4x", "unsigned char out[64], const uint32_t ivw[16], const uint64_t *sk_exp, unsigned int nrounds",
+         "uint32_t w[16]; uint64_t q[8]; unsigned int i; memcpy(w, ivw, sizeof(w)); for (i = 0; i < 4; i++) { "
+         "br_aes_ct64_interleave_in(&q[i], &q[i + 4], w + (i << 2)); } br_aes_ct64_ortho(q); add_round_key(q, sk_exp); "
+         "for (i = 1; i < nrounds; i++) { br_aes_ct64_bitslice_Sbox(q); shift_rows(q); mix_columns(q); add_round_key(q, sk_exp + (i << 3)); } "
+         "br_aes_ct64_bitslice_Sbox(q); shift_rows(q); add_round_key(q, sk_exp + 8 * nrounds); br_aes_ct64_ortho(q); for (i = 0; i < 4; i++) { "
+         "br_aes_ct64_interleave_out(w + (i << 2), q[i], q[i + 4]); } br_range_enc32le(out, w, 16);"),
+        ("br_dec32le", "const unsigned char *src",
+         "return (uint32_t)src[0] | ((uint32_t)src[1] << 8) | ((uint32_t)src[2] << 16) | ((uint32_t)src[3] << 24);"),
+        ("br_enc32le", "unsigned char *dst, uint32_t x",
+         "dst[0] = (unsigned char)x; dst[1] = (unsigned char)(x >> 8); dst[2] = (unsigned char)(x >> 16); dst[3] = (unsigned char)(x >> 24);"),
+        ("br_range_dec32le", "uint32_t *v, size_t num, const unsigned char *src", "while (num-- > 0) { *v++ = br_dec32le(src); src += 4; }"),
+        ("br_range_enc32le", "unsigned char *dst, const uint32_t *v, size_t num", "while (num-- > 0) { br_enc32le(dst, *v++); dst += 4; }"),
+    ):
+        ar, bo = find_function(src, fn)
+        if norm(ar) != a or norm(bo) != b:
+            raise TranslateError("%s: control code differs from the accepted text (hand-modelled in SqiModel.AesCt):\n  got  (%s) %s" % (fn, norm(ar), norm(bo)))
+
+
 def extract(repo):
     path = os.path.join(repo, "src/common/generic/aes_c.c")
     src = preprocess(path)
@@ -313,6 +507,7 @@ def extract(repo):
                     raise TranslateError("%s: local register %s read before it is assigned" % (cname, r))
             written.add(dst)
         d[key] = dict(prog=f.prog, nreg=f.nreg, cname=cname)
+    extract_keysched(src, d, helpers)
     m = re.search(r"static\s+const\s+unsigned\s+char\s+Rcon\s*\[\s*\]\s*=\s*\{([^}]*)\}\s*;", src)
     if not m:
         raise TranslateError("Rcon table not found")
@@ -324,7 +519,7 @@ def emit(d):
     L = ["/- GENERATED by tools/translate/aes.py from src/common/generic/aes_c.c (after gcc -E) — do not edit.",
          "   The bitsliced AES primitives as straight-line 64-bit register programs (SqiModel.Bitslice.Prog). -/",
          "import SqiModel.Bitslice", "namespace SqiGen.Aes", "open SqiModel.Bitslice", ""]
-    for key in LAYOUT:
+    for key in list(LAYOUT) + ["ks_compress", "ks_expand"]:
         e = d[key]
         L.append("/-- `%s`; registers: parameters first (see tools/translate/aes.py LAYOUT), then locals -/" % e["cname"])
         L.append("def %s_nreg : Nat := %d" % (key, e["nreg"]))
@@ -332,6 +527,13 @@ def emit(d):
         L.append(",\n".join("  (%d, %s)" % (dst, ex) for dst, ex in e["prog"]))
         L.append("]")
         L.append("")
+    L.append("/-- word expansion of br_aes_ct64_keysched for key_len = 32, control flow simulated: per word i = nk … nkf−1 the pair")
+    L.append("    (1, k) = RotWord, SubWord, xor Rcon[k];  (2, _) = SubWord;  (0, _) = plain -/")
+    L.append("def ks_ops : List (Nat × Nat) := [" + ", ".join("(%d, %d)" % o for o in d["ks_ops"]) + "]")
+    L.append("def ks_nk : Nat := %d" % d["ks_nk"])
+    L.append("def ks_nkf : Nat := %d" % d["ks_nkf"])
+    L.append("def ks_nrounds : Nat := %d" % d["ks_nrounds"])
+    L.append("")
     L.append("def Rcon : List UInt8 := [" + ", ".join("0x%02x" % x for x in d["Rcon"]) + "]")
     L += ["", "end SqiGen.Aes", ""]
     return "\n".join(L)
